@@ -137,6 +137,16 @@ func (c *ShipConnection) handshakeHello_PendingListen(timeout bool, message []by
 			return
 		}
 
+		// the approval may have come in while this state was just being entered
+		c.mux.Lock()
+		approved := c.approvedEarly
+		c.approvedEarly = false
+		c.mux.Unlock()
+		if approved {
+			c.ApprovePendingHandshake()
+			return
+		}
+
 		c.stopHandshakeTimer()
 
 		// conversion is safe
